@@ -443,6 +443,7 @@ func runC01(ctx *core.Ctx) {
 		c01ResetStream(ctx)
 		ctx.Wait()
 		c01Models(ctx) // stage-level correspondence (c01_models.go)
+		c01UnicityLoop(ctx) // the seq / keys loop of enforceUnicity (c01_unicity.go)
 	}
 	if only == "" || only == "schema" {
 		schemacorr.Run(ctx) // gojsonschema vs Schema.conforms (harness/schema.go): the tie behind Props/C01Schema.lean
@@ -450,12 +451,16 @@ func runC01(ctx *core.Ctx) {
 	if only == "repeat" {
 		c01Repeats(ctx)
 	}
+	if only == "seqified" {
+		c01Seqified(ctx, sch, rich)
+	}
 	if only == "" || only == "oracle" {
 		c01Repeats(ctx) // every list of the valid catalogue with repeated elements in every arrangement (c01_repeat.go)
 		c01Valid(ctx)   // combinations of valid attribute spellings (c01_valid.go)
 		c01Tags(ctx, rich)
 		c01Missing(ctx)
 		c01Kinds(ctx, sch, rich)
+		c01Seqified(ctx, sch, rich) // a mapping on the way replaced by the list of its values (c01_seqified.go)
 		c01OptionLattice(ctx, sch, rich)
 		c01Bytes(ctx, rich)
 	}
